@@ -8,7 +8,8 @@ package pubsub
 // sent it as long as our outbound stream; closing either direction drops exactly that peer's
 // entry, in whatever order the two directions close.
 //@ func (*extensionsState).OnClosedIncomingStream
-//@   property C13
+//@   property C13 C12
+//@   safe
 //@   requires maps: es.peerExtensions != nil
 //@   noframe
 //@   ensures forgotten: !(id in es.peerExtensions) && es.peerExtensions != nil
@@ -41,3 +42,10 @@ package pubsub
 //@   ensures gater-told: old(gs.gate) != nil ==> calls((*peerGater).OnClosedIncomingStream) == old(calls((*peerGater).OnClosedIncomingStream)) + 1 && lastarg((*peerGater).OnClosedIncomingStream, 1) == pid
 //@   ensures extensions-told: lastret(dyn:feature) && old(gs.extensions) != nil && old(gs.extensions.peerExtensions) != nil ==> calls((*extensionsState).OnClosedIncomingStream) == old(calls((*extensionsState).OnClosedIncomingStream)) + 1 &&
 //@        lastarg((*extensionsState).OnClosedIncomingStream, 1) == pid
+
+// HandleRPC of the extension layer: only extension state is touched (the test extension and the
+// partial-message extension are reached through interfaces and callbacks that the analysis
+// cannot bound; that they leave the router's and the scorer's tables alone is assumed).
+//@ func (*extensionsState).HandleRPC
+//@   trusted extension handling touches only the extension state (peerExtensions and the extensions' own data)
+//@   modifies map(es.peerExtensions)
